@@ -155,7 +155,8 @@ def worker(ck: Check, job):
             inner_pos = range(1, k - 1)
             return z3.Not(z3.Or(*[st.w[i] == j for i in inner_pos for j in idx])) if idx and k > 2 else None
         return None
-    ck.prove_none(name, st.assm, guard(cov, bad), on_cex, block)
+    split = [z3.And(st.w[0] == j, st.w[1] == j2) for j in range(len(reps)) for j2 in range(len(reps))]
+    ck.prove_none(name, st.assm, guard(cov, bad), on_cex, block, case_split=split)
     ck.cover(name + ':held-and-dropped', st.assm + [z3.UGT(n0, nt)], lambda m: {'lang': code, 'tokens': [t[0] for t in st.concrete(m)]})
     ck.cover(name + ':kept', st.assm + [z3.UGE(nt, 2)], lambda m: {'lang': code, 'tokens': [t[0] for t in st.concrete(m)]})
     ck.bounds['stream_words'] = k
